@@ -319,12 +319,14 @@ def match_known(violation_json, findings):
     return None
 
 
-def write_replay(prop, world_name, seed, hashseed, cfg, steps, violation, digest, minimised_from, tier):
+def write_replay(prop, world_name, seed, hashseed, cfg, steps, violation, digest, minimised_from, tier, prelude=None,
+                 original_steps=None):
     os.makedirs(REPLAY_DIR, exist_ok=True)
     path = os.path.join(REPLAY_DIR, '%s-%d.json' % (prop, seed))
     doc = {'format': 1, 'property': prop, 'world': world_name, 'tier': tier, 'seed': seed,
            'pythonhashseed': hashseed, 'config': cfg, 'steps': steps,
-           'violation': violation, 'digest': digest, 'minimised_from': minimised_from}
+           'violation': violation, 'digest': digest, 'minimised_from': minimised_from,
+           'prelude_seeds': list(prelude or []), 'original_steps': original_steps if original_steps != steps else None}
     tmp = path + '.tmp%d' % os.getpid()
     with open(tmp, 'w') as f:
         json.dump(doc, f, indent=1, sort_keys=True)
